@@ -570,9 +570,19 @@ func run(c *core.Ctx) {
 	parallel(W, func(w int) {
 		r := core.RNG(fmt.Sprintf("c16/%s%d", prefix, w))
 		// each worker uses its own identity set (sessions/timestamp filters are per identity pair)
+		// Two of the five have an address from which no switch label can be derived (geo-marked with a zero low
+		// label byte; privacy addresses with a small tail are the same case but cost 2^15 key generations each): their links get a random label, which must be non-zero too.
 		my := make([]*m.Address, 5)
 		for i := range my {
-			my[i] = env.NewIdentity(r, nil)
+			switch {
+			case (i == 1 || i == 3) && !c.RaceBuild: // (grinding such identities is too slow under the race detector)
+				my[i] = env.NewIdentity(r, func(ip netip.Addr) bool {
+					_, ok := m.DeriveSwitchLabelFromIP(ip)
+					return !ok && m.GetAddressType(ip) == m.TypeGeoMarked
+				})
+			default:
+				my[i] = env.NewIdentity(r, nil)
+			}
 		}
 		for i := w; i < n; i += W {
 			runSequence(res, r, my, prefix)
